@@ -1,8 +1,8 @@
 // trans.go — a tiny Go→Lean translator for the PURE LEAF LOGIC of the repository: comparators, threshold tests, gap /
 // duplicate detectors, loop-exit and expiry conditions.  For each function listed in `transSpecs` the current source is parsed
 // (go/ast, no type information) and a Lean definition is emitted into SV/Generated/Funcs.lean whose parameters are the
-// function's LEAVES — the selector chains, argument-less method calls, parameters and `len(..)` it reads — in order of first
-// occurrence.  SV/GenProofs.lean proves each generated definition equal to the corresponding expression of the hand-written
+// function's LEAVES — the selector chains, argument-less method calls, parameters and `len(..)` it reads (parameters in order
+// of first occurrence, always passed by name in the proofs; the pinned `_leaves` list is sorted).  SV/GenProofs.lean proves each generated definition equal to the corresponding expression of the hand-written
 // model, so a changed comparison, boundary, tie-break or operand in the source breaks a proof obligation on the next run.
 //
 // Supported statements: `x := e`, `return e`, `if c { … }` (with fall-through), expression statements (logging) are
@@ -86,6 +86,8 @@ type translator struct {
 	// mode loopstep: the distinct ways one iteration of the loop ends other than going on with the next element
 	// (`return …` / `break` statements by source text, in order of first occurrence); outcome code = index + 1, 0 = next element
 	outcomes []string
+	// mode breaks: locals of the loop body defined by an arithmetic expression are substituted where they are read
+	inl map[string][2]string
 }
 
 func (t *translator) outcome(text string) string {
@@ -167,6 +169,9 @@ func (t *translator) expr(e ast.Expr, want string) (string, string) {
 	case *ast.Ident:
 		if x.Name == "true" || x.Name == "false" {
 			return x.Name, "Bool"
+		}
+		if e, ok := t.inl[x.Name]; ok {
+			return e[0], e[1]
 		}
 		if ln, ok := t.locals[x.Name]; ok {
 			ty := t.ltype[x.Name]
@@ -412,6 +417,20 @@ func (t *translator) stmts(l []ast.Stmt, k string, ret string) string {
 	return ""
 }
 
+// tryExpr translates an expression, reporting failure instead of aborting the whole definition
+func (t *translator) tryExpr(e ast.Expr) (out, ty string, ok bool) {
+	defer func() {
+		if r := recover(); r != nil {
+			if _, isU := r.(unsupported); !isU {
+				panic(r)
+			}
+			ok = false
+		}
+	}()
+	out, ty = t.expr(e, "")
+	return out, ty, true
+}
+
 func copyMap(m map[string]string) map[string]string {
 	c := map[string]string{}
 	for k, v := range m {
@@ -477,7 +496,19 @@ func (t *translator) breakConds(l []ast.Stmt, outer string) []string {
 		switch x := s.(type) {
 		case *ast.AssignStmt:
 			if x.Tok == token.DEFINE && len(x.Lhs) == 1 && len(x.Rhs) == 1 {
-				// locals of the loop body become leaves named after the local (their defining expressions are data flow, not logic)
+				// locals of the loop body become leaves named after the local (their defining expressions are data flow, not
+				// logic) — except temporaries holding an arithmetic expression, which are substituted where they are read
+				if id, ok := x.Lhs[0].(*ast.Ident); ok {
+					switch x.Rhs[0].(type) {
+					case *ast.BinaryExpr, *ast.ParenExpr:
+						if e, ty, ok := t.tryExpr(x.Rhs[0]); ok {
+							if t.inl == nil {
+								t.inl = map[string][2]string{}
+							}
+							t.inl[id.Name] = [2]string{e, ty}
+						}
+					}
+				}
 				continue
 			}
 		case *ast.IfStmt:
@@ -671,6 +702,9 @@ func translateOne(repo string, sp transSpec) (def string, err string) {
 		params = append(params, fmt.Sprintf("(%s : %s)", l.name, ty))
 		srcs = append(srcs, fmt.Sprintf("%q", l.src+" : "+ty))
 	}
+	// the pinned list of operands is SORTED (which operands the source reads, not in which order it mentions them); the proofs
+	// pass the parameters by NAME, so mirroring a comparison (`a > b` ⇄ `b < a`) changes neither
+	sort.Strings(srcs)
 	recv := sp.recv
 	if recv != "" {
 		recv += "."
